@@ -1156,3 +1156,119 @@ func rulePrefixPred(p *Prog, r *Report) {
 func init() {
 	register("C05", "", rulePrefixPred)
 }
+
+// ---- R-SIBLING-OPEN: sibling interval parsers agree on open ends ------------------------------------------
+//
+// The bracket syntaxes ([a,b], (a,b), [a,b), (a,b]) are parsed by sibling functions that split the text
+// between the brackets at the comma and hand both sides to NewVersion. Where one sibling accepts an
+// empty side as "unbounded" (it tests the side against "" before parsing it), a sibling that parses both
+// sides unconditionally rejects the open interval of its own bracket kind ((1.0,) , (,2.0)), although the
+// ecosystem documents it like the others. Cross-check: within one ecosystem, either every such parser
+// tests its sides for emptiness or none does.
+func ruleSiblingOpen(p *Prog, r *Report) {
+	n := 0
+	for _, e := range p.Ecos {
+		if e.NewRng == nil {
+			continue
+		}
+		type sib struct {
+			fn      *ssa.Function
+			guarded bool
+		}
+		var sibs []sib
+		for _, fn := range p.RepoReachable(e.NewRng) {
+			if fn.Blocks == nil {
+				continue
+			}
+			var split *ssa.Call
+			for _, b := range fn.Blocks {
+				for _, ins := range b.Instrs {
+					if c, ok := ins.(*ssa.Call); ok {
+						if g := c.Call.StaticCallee(); g != nil && extName(g) == "strings.Split" {
+							if sep, ok := constString(c.Call.Args[1]); ok && sep == "," {
+								split = c
+							}
+						}
+					}
+				}
+			}
+			if split == nil {
+				continue
+			}
+			// the two sides: TrimSpace of split[0] / split[1] (or the elements themselves)
+			sideOf := func(v ssa.Value) int {
+				for d := 0; d < 4; d++ {
+					switch x := v.(type) {
+					case *ssa.Call:
+						if g := x.Call.StaticCallee(); g != nil && extName(g) == "strings.TrimSpace" {
+							v = x.Call.Args[0]
+							continue
+						}
+						return -1
+					case *ssa.UnOp:
+						if ia, ok := x.X.(*ssa.IndexAddr); ok && ia.X == ssa.Value(split) {
+							if k, ok := constInt(ia.Index); ok && (k == 0 || k == 1) {
+								return int(k)
+							}
+						}
+						return -1
+					}
+					return -1
+				}
+				return -1
+			}
+			parsed := map[int]bool{}
+			tested := map[int]bool{}
+			for _, b := range fn.Blocks {
+				for _, ins := range b.Instrs {
+					switch x := ins.(type) {
+					case *ssa.Call:
+						if x.Call.StaticCallee() == e.NewVer && len(x.Call.Args) >= 2 {
+							if s := sideOf(x.Call.Args[1]); s >= 0 {
+								parsed[s] = true
+							}
+						}
+					case *ssa.BinOp:
+						if x.Op == token.EQL || x.Op == token.NEQ {
+							for _, pr := range [][2]ssa.Value{{x.X, x.Y}, {x.Y, x.X}} {
+								if lit, ok := constString(pr[1]); ok && lit == "" {
+									if s := sideOf(pr[0]); s >= 0 {
+										tested[s] = true
+									}
+								}
+							}
+						}
+					}
+				}
+			}
+			if parsed[0] && parsed[1] {
+				sibs = append(sibs, sib{fn, tested[0] && tested[1]})
+			}
+		}
+		if len(sibs) < 2 {
+			continue
+		}
+		sort.Slice(sibs, func(i, j int) bool { return sibs[i].fn.Name() < sibs[j].fn.Name() })
+		var open, closed []string
+		for _, s := range sibs {
+			if s.guarded {
+				open = append(open, s.fn.Name())
+			} else {
+				closed = append(closed, s.fn.Name())
+			}
+		}
+		n++
+		key := fmt.Sprintf("%s: the interval parsers agree on open ends", e.Name)
+		if len(open) > 0 && len(closed) > 0 {
+			r.Bad("R-SIBLING-OPEN", key, p.FnPos(sibs[0].fn), fmt.Sprintf("%v accept an empty side as unbounded, %v hand both sides to NewVersion unconditionally: the open intervals of their own bracket kind are rejected", open, closed))
+		} else {
+			r.Ok("R-SIBLING-OPEN", key, p.FnPos(sibs[0].fn), fmt.Sprintf("%d sibling parsers split at the comma and parse both sides; open: %v, closed only: %v", len(sibs), open, closed))
+		}
+	}
+	_ = n
+	r.Floor("R-SIBLING-OPEN", 1)
+}
+
+func init() {
+	register("C05", "", ruleSiblingOpen)
+}
